@@ -31,17 +31,28 @@ PROPS = {
     ),
     "C17": dict(functions=[], lemmas=[], provenance=True, bounded="C17", level="other"),
     "C18": dict(functions=[], lemmas=[], provenance=True, bounded="C18", level="other"),
-    "C04": dict(functions=[], lemmas=[], bounded="C04", level="exploration"),
+    # C04 / C07: codec block writers and the Writer's operations (what each appends to the user's stream,
+    # what stays in the pending buffer; a failed write changes nothing).  Reader side and header: bounded.
+    "C04": dict(functions=[(W, r"(null|deflate|bzip2|xz)_write_block", "default"), (W, r"Writer\.(dump|write|flush)", "default")],
+                lemmas=[], bounded="C04", level="other"),
     "C05": dict(functions=[], lemmas=[], bounded="C05", level="exploration"),
-    "C06": dict(functions=[], lemmas=[], bounded="C06", level="exploration"),
-    "C07": dict(functions=[], lemmas=[], bounded="C07", level="exploration"),
+    # C06: the per-function short-read obligations of the decoder (a read that came back short makes
+    # the method raise) and the exact-consumption contracts; the container iterators are bounded
+    "C06": dict(functions=[(DEC, r"BinaryDecoder\..*", ".*")], lemmas=[], bounded="C06", level="other"),
+    "C07": dict(functions=[(W, r"(null|deflate|bzip2|xz)_write_block", "default"), (W, r"Writer\.(dump|write|flush|write_block)", ".*")],
+                lemmas=[], bounded="C07", level="other"),
     "C08": dict(functions=[], lemmas=[], bounded="C08", level="exploration"),
-    "C09": dict(functions=[], lemmas=[], bounded="C09", level="exploration"),
+    # C09: "a function of schema and datum alone": frame obligations of the functions involved in
+    # branch selection (no module-level or default-argument state); the selection rule itself is bounded
+    "C09": dict(functions=[], lemmas=[], provenance=True,
+                provenance_filter=r"fastavro/(_write_py|_validation_py|_schema_py|_read_py)\.py:.*",
+                bounded="C09", level="other"),
     "C10": dict(functions=[], lemmas=[], bounded="C10", level="exploration"),
     "C11": dict(functions=[], lemmas=[], bounded="C11", level="exploration"),
     "C12": dict(functions=[], lemmas=[], bounded="C12", level="exploration"),
     "C13": dict(functions=[], lemmas=[], bounded="C13", level="exploration"),
-    "C14": dict(functions=[], lemmas=[], bounded="C14", level="exploration"),
+    "C14": dict(functions=[("fastavro/_schema_common.py", r"rabin_fingerprint", "default"), ("fastavro/_schema_py.py", r"fingerprint", "default")],
+                lemmas=[], bounded="C14", level="proof"),
     "C15": dict(functions=[], lemmas=[], bounded="C15", level="exploration"),
     "C16": dict(functions=[], lemmas=[], bounded="C16", level="exploration"),
     "C19": dict(functions=[], lemmas=[], bounded="C19", level="exploration"),
